@@ -36,6 +36,8 @@ def gen_cases(tier: str, seed: int) -> List[Dict[str, Any]]:
         for _ in range(depth):
             r = rng.random()
             tau = 1.0 if r < 0.1 else (rng.choice([1e-3, 1e3]) if r < 0.15 else loguniform(rng, 1e-3, 1e3))
+            if r > 0.95:
+                tau = rng.choice([1, 2, 3, 10, 1000])  # a Python int is a valid tau
             layers.append({"tau": tau, "branch": rng.choice(BRANCHES)})
         rank = rng.randint(1, 4)
         shape = [rng.choice([1, 2, 3, 5]) for _ in range(rank - 1)] + [rng.choice([2, 3, 5, 7])]
@@ -96,6 +98,12 @@ def run_case(case: Dict[str, Any], ctx) -> None:
     d = shape[-1] if shape else 1
     x0 = torch.randn(shape, generator=gen, dtype=torch.float64)
     up = torch.randn(shape, generator=gen, dtype=torch.float64)
+    if case["seed"] % 5 == 0 and len(shape) >= 1:
+        from ..optable import relayout
+        x0 = relayout(x0, "noncontig")  # same values through other strides
+        if case["seed"] % 10 == 0:
+            up = up[..., :1].expand(up.shape)  # the upstream gradient of y.sum(-1): stride 0
+        ctx.count("form:non-contiguous-input")
     layers = case["layers"]
     fs = [make_branch(l["branch"], d, gen, torch, U) for l in layers]
     taus = [l["tau"] for l in layers]
